@@ -127,6 +127,10 @@ func emit(pkg, clientID string, want protocol.Message, raw []byte) {
 }
 
 func main() {
+	if len(os.Args) > 1 && os.Args[1] == "-resp" {
+		respMode()
+		return
+	}
 	r := gen.New()
 	word := func() string { return "w" + hex.EncodeToString(gen.Bytes(r, 1+r.Intn(6))) }
 	n := 6
